@@ -1176,6 +1176,29 @@ def str_to_lowercase(e, args, fr, m):
     raise Unsupported('to_lowercase of an unconstrained symbolic string')
 
 
+@contract(r'^<impl str>::to_uppercase$|^<impl str>::to_ascii_uppercase$|^<impl str>::to_ascii_lowercase$')
+def str_to_uppercase(e, args, fr, m):
+    s = e.load(args[0])
+    which = m.group(0).rsplit('::', 1)[-1]
+    if s.concrete:
+        if which == 'to_uppercase':
+            return Str(s.v.upper())
+        f = (lambda c: c.upper()) if which == 'to_ascii_uppercase' else (lambda c: c.lower())
+        return Str(''.join(f(c) if c.isascii() else c for c in s.v))
+    if isinstance(s, NameStr):
+        if which == 'to_uppercase':
+            return s.upper()
+        out = []
+        for c in s.chars:
+            t = c
+            for a, b_ in (UPPER if which == 'to_ascii_uppercase' else LOWER).items():
+                if a.isascii() and b_.isascii():
+                    t = z3.If(c == NAME_ALPHABET.index(a), z3.BitVecVal(NAME_ALPHABET.index(b_), 4), t)
+            out.append(t)
+        return NameStr(out)
+    raise Unsupported('%s of an unconstrained symbolic string' % which)
+
+
 @contract(r'^<impl str>::contains::<&str>$|^<impl str>::contains::<&String>$')
 def str_contains(e, args, fr, m):
     s, p = e.load(args[0]), e.load(args[1])
@@ -2223,8 +2246,11 @@ def string_clear(e, args, fr, m):
 
 
 # ------------------------------------------------------------------------------------------------ symbolic file names
-NAME_ALPHABET = ['.', 't', 'T', 's', 'S', 'o', 'O', 'l', 'L', 'x', ' ', 'É', 'é', '日', '𝄞']
+NAME_ALPHABET = ['.', 't', 'T', 's', 'S', 'o', 'O', 'l', 'L', 'x', ' ', 'É', 'é', '日', '𝄞', 'ſ']
 LOWER = {'T': 't', 'S': 's', 'O': 'o', 'L': 'l', 'É': 'é'}
+# to_uppercase is NOT the inverse: the long s (U+017F) has no upper-case form of its own and becomes `S`; `x`, blank, dot, CJK and
+# the musical symbol are unchanged
+UPPER = {'t': 'T', 's': 'S', 'o': 'O', 'l': 'L', 'é': 'É', 'ſ': 'S'}
 
 
 class NameStr(Str):
@@ -2239,7 +2265,7 @@ class NameStr(Str):
     @staticmethod
     def fresh(tag, n):
         chars = [z3.BitVec('%s_c%d' % (tag, i), 4) for i in range(n)]
-        cons = [z3.ULT(c, len(NAME_ALPHABET)) for c in chars]
+        cons = [z3.ULT(c, len(NAME_ALPHABET)) for c in chars] if len(NAME_ALPHABET) < 16 else []       # 16 letters fill the 4 bits
         return NameStr(chars), cons
 
     @property
@@ -2261,6 +2287,15 @@ class NameStr(Str):
             t = c
             for up, lo in LOWER.items():
                 t = z3.If(c == NAME_ALPHABET.index(up), z3.BitVecVal(NAME_ALPHABET.index(lo), 4), t)
+            out.append(t)
+        return NameStr(out)
+
+    def upper(self):
+        out = []
+        for c in self.chars:
+            t = c
+            for lo, up in UPPER.items():
+                t = z3.If(c == NAME_ALPHABET.index(lo), z3.BitVecVal(NAME_ALPHABET.index(up), 4), t)
             out.append(t)
         return NameStr(out)
 
